@@ -120,8 +120,10 @@ SClipFinals(c) == SClipAfter(c, DOMAIN c.x, c.niter)
 \* not named by the statement - either documented convention is accepted
 SClipMean(c, F) == SMean(c.x, c.w, F)
 SClipVar(c, F)  == SVar(c.x, c.w, F)
-SClipErr2s(c, F) == IF c.hasw THEN {SErr2Calc(c.x, c.w, F, SMean(c.x, c.w, F)), SErr2Inv(c.w, F)}
-                    ELSE {RDiv(SVar(c.x, c.w, F), RInt(Cardinality(F)))}
+\* o.err2 is the observation mapped as a variance-like quantity, o.err2i mapped as 1/weight
+SClipErrOK(c, F, o) == IF c.hasw THEN \/ SObsEq(o.err2, SErr2Calc(c.x, c.w, F, SMean(c.x, c.w, F)))
+                                      \/ SObsEq(o.err2i, SErr2Inv(c.w, F))
+                       ELSE SObsEq(o.err2, RDiv(SVar(c.x, c.w, F), RInt(Cardinality(F))))
 
 \* ---- linear inter/extrapolation -----------------------------------------------------
 \* table xs (strictly increasing), vs; query u = <<p, q>>
@@ -179,7 +181,7 @@ SWmedFailing(c, o) ==
     ELSE IF SObsEq(o.val, RInt(SWMedian(c.x, c.w))) THEN {} ELSE {"wmedian"}
 
 \* ---- sigma_clip ---------------------------------------------------------------------------
-\* o = [err, steps : Seq(Seq(Nat)), mean, var, err2 : obs real]
+\* o = [err, steps : Seq(Seq(Nat)), mean, var, err2, err2i : obs real]
 \*   steps[k+1] = the indices (1-based) reported with niter = k, k = 0..c.niter: the
 \*   state of the iteration after k rounds, re-observed through the public call;
 \*   mean/var/err2 = the statistics returned together with steps[niter+1].
@@ -200,7 +202,7 @@ SClipFailing(c, o) ==
             (IF F = {} THEN {}
              ELSE (IF SObsEq(o.mean, SClipMean(c, F)) THEN {} ELSE {"mean_of_subset"}) \cup
                   (IF SObsEq(o.var, SClipVar(c, F)) THEN {} ELSE {"std_of_subset"}) \cup
-                  (IF SObsIn(o.err2, SClipErr2s(c, F)) THEN {} ELSE {"err_of_subset"}))
+                  (IF SClipErrOK(c, F, o) THEN {} ELSE {"err_of_subset"}))
 
 \* ---- interplin ---------------------------------------------------------------------------
 \* c = [xs, vs : Seq(Int), us : Seq(<<p,q>>)],  o = [err, vals : Seq(Seq(obs real))]
@@ -217,30 +219,31 @@ SInterpFailing(c, o) ==
                 : a \in DOMAIN o.vals, q \in DOMAIN c.us}
 
 \* ---- get_stats ---------------------------------------------------------------------------
-\* c = [mode : {"plain","weights","clip"}, x : Seq(columns), w : Seq(Int) (ones when unused),
+\* c = [mode : {"plain","weights","clip"}, x : Seq(columns), w : Seq(columns) (one column = shared),
 \*      calcerr : BOOLEAN (weights mode: FALSE when calcerr=False was passed),
 \*      hasw, nsn, nsd, niter (clip mode; one column)]
-\* o = [err, mean, var, err2, min, max : Seq(obs real)]
-SGsClipCase(c) == [x |-> c.x[1], w |-> c.w, hasw |-> c.hasw, nsn |-> c.nsn, nsd |-> c.nsd, niter |-> c.niter]
+\* o = [err, mean, var, err2, err2i, min, max : Seq(obs real)]
+SGsClipCase(c) == [x |-> c.x[1], w |-> c.w[1], hasw |-> c.hasw, nsn |-> c.nsn, nsd |-> c.nsd, niter |-> c.niter]
 SGstatsCol(c, o, j) ==
-    LET x == c.x[j]  P == DOMAIN x  w == IF c.mode = "plain" THEN SOnes(Len(x)) ELSE c.w
+    LET x == c.x[j]  P == DOMAIN x  w == IF c.mode = "plain" THEN SOnes(Len(x)) ELSE SWCol(c, j)
         m == SMean(x, w, P)
     IN (IF SObsEq(o.mean[j], m) THEN {} ELSE {"mean"}) \cup
        (IF SObsEq(o.var[j], SVar(x, w, P)) THEN {} ELSE {"std"}) \cup
-       (IF SObsEq(o.err2[j], IF c.mode = "plain" THEN SErr2Plain(x, P)
-                             ELSE IF c.calcerr THEN SErr2Calc(x, w, P, m) ELSE SErr2Inv(w, P)) THEN {} ELSE {"err"}) \cup
+       (IF (IF c.mode = "plain" THEN SObsEq(o.err2[j], SErr2Plain(x, P))
+            ELSE IF c.calcerr THEN SObsEq(o.err2[j], SErr2Calc(x, w, P, m)) ELSE SObsEq(o.err2i[j], SErr2Inv(w, P)))
+        THEN {} ELSE {"err"}) \cup
        (IF SObsEq(o.min[j], RInt(SMinOf(x, P))) THEN {} ELSE {"min"}) \cup
        (IF SObsEq(o.max[j], RInt(SMaxOf(x, P))) THEN {} ELSE {"max"})
 SGstatsFailing(c, o) ==
     IF o.err # "none" THEN {"unexpected_error"}
-    ELSE IF \E f \in {o.mean, o.var, o.err2, o.min, o.max} : Len(f) # Len(c.x) THEN {"shape"}
+    ELSE IF \E f \in {o.mean, o.var, o.err2, o.err2i, o.min, o.max} : Len(f) # Len(c.x) THEN {"shape"}
     ELSE IF c.mode # "clip" THEN UNION {SGstatsCol(c, o, j) : j \in 1..Len(c.x)}
     ELSE LET cc == SGsClipCase(c)
              x  == c.x[1]
              \* consistent with sigma_clip: the statistics of one subset the clipping may report;
              \* min/max: the statement does not say of what - whole array or that subset
              fits(F) == F # {} /\ SObsEq(o.mean[1], SClipMean(cc, F)) /\ SObsEq(o.var[1], SClipVar(cc, F))
-                               /\ SObsIn(o.err2[1], SClipErr2s(cc, F))
+                               /\ SClipErrOK(cc, F, [err2 |-> o.err2[1], err2i |-> o.err2i[1]])
              Fs == {F \in SClipFinals(cc) : fits(F)}
          IN IF Fs = {} THEN {"clip_stats"}
             ELSE (IF \E F \in Fs \cup {DOMAIN x} : SObsEq(o.min[1], RInt(SMinOf(x, F))) THEN {} ELSE {"min"}) \cup
